@@ -65,7 +65,7 @@ func newRunner(r *vh.Rand) vh.Runner {
 		if r.Chance(20) {
 			delay = int(r.Range(1, 400))
 		}
-		kind := pickS(r, []string{"retry", "vn", "initial", "replay", "corrupt", "handshake", "short", "0rtt", "unsupported", "tiny"}, 26, 20, 16, 8, 10, 6, 6, 3, 3, 2)
+		kind := pickS(r, []string{"retry", "vn", "initial", "replay", "corrupt", "handshake", "short", "0rtt", "unsupported", "tiny", "coalesce", "flood", "tinylong"}, 26, 20, 16, 8, 10, 6, 6, 3, 3, 3, 7, 2, 3)
 		var ps []string
 		switch kind {
 		case "retry":
@@ -78,6 +78,13 @@ func newRunner(r *vh.Rand) vh.Runner {
 				"payload="+pickS(r, []string{"close", "ping"}, 70, 30), "ver="+pickS(r, []string{"cur", "other"}, 90, 10))
 		case "handshake":
 			ps = append(ps, "scid="+pickS(r, []string{"wrong", "right"}, 30, 70), "ver="+pickS(r, []string{"cur", "other"}, 90, 10))
+		case "coalesce":
+			ps = append(ps, "first="+pickS(r, []string{"initial", "badver", "handshake"}, 60, 20, 20), "scid="+pickS(r, []string{"right", "wrong"}, 60, 40),
+				"keys="+pickS(r, []string{"garbage", "valid"}, 60, 40), "second="+pickS(r, []string{"same", "other"}, 60, 40), "tail="+pickS(r, []string{"long", "short"}, 70, 30))
+		case "tinylong":
+			ps = append(ps, "typ="+pickS(r, []string{"initial", "handshake"}, 60, 40))
+		case "flood":
+			ps = append(ps, fmt.Sprintf("n=%d", 30+r.Intn(8)), "what="+pickS(r, []string{"short", "handshake"}, 50, 50), "scid=right", "ver=cur")
 		case "replay":
 			ps = append(ps, fmt.Sprintf("src=%d", r.Intn(4)))
 		case "corrupt":
